@@ -11,7 +11,9 @@ Proved here, for every tree, option setting, collector state and numbering table
 
 * `C02_flat_inline` — walking inline content (no paragraph, cell, hyperlink, note or comment
   marker inside) appends exactly `inlineText` to the open paragraph and changes nothing else;
-* `C02_paragraph` — a paragraph that encloses no other paragraph adds exactly one record, **at
+* `C02_paragraph` — a paragraph that encloses no other paragraph, opened while no implicit
+  paragraph (stray inline content outside every `w:p`) is pending — `NoImpl`; a pending one is
+  concluded first, which `Props/Findings` exhibits — adds exactly one record, **at
   the end of the document order**, whose run texts concatenate to
   `queued note label ++ list marker ++ inlineText(children)`; everything collected before, the
   open paragraphs around it and the comment ranges are untouched;
@@ -44,7 +46,7 @@ def parSpec (cfg : PartCfg) (b : Bullets) (prefix_ : Str) : Xml → M (Str × Bu
 
 /-- **C02, one paragraph.** -/
 theorem C02_paragraph (cfg : PartCfg) (num : Dict Str (List NumAttr)) (c : Bool) (s s' : DC) (x : Xml)
-    (hx : flatPar x = true) (h : walk cfg num c s x = .ok s') :
+    (hx : flatPar x = true) (hni : NoImpl s) (h : walk cfg num c s x = .ok s') :
     ∃ par, leafParsL s'.root = leafParsL s.root ++ [par] ∧ s'.openPars = s.openPars ∧ s'.queued = [] ∧
       s'.ranges = s.ranges ∧ par.elem = x.id? ∧
       parSpec cfg s.bullets (sjoin (s.queued.map (·.text))) x = .ok (parText par, s'.bullets) := by
@@ -52,7 +54,7 @@ theorem C02_paragraph (cfg : PartCfg) (num : Dict Str (List NumAttr)) (c : Bool)
   | elem i p t m a tx tl ks =>
     simp only [flatPar, Bool.and_eq_true, beq_iff_eq] at hx
     obtain ⟨par, body, bb, h1, h2, h3, h4, h5, h6, h7, h8, h9, _, _⟩ :=
-      walk_paragraph cfg num c s s' i p t m a tx tl ks hx.1 hx.2 h
+      walk_paragraph cfg num c s s' i p t m a tx tl ks hx.1 hx.2 hni h
     refine ⟨par, h1, h2, h3, h4, by simpa [Xml.id?] using h5, ?_⟩
     simp only [parSpec, h7, h6, ok_bind, h8, h9]
     rfl
@@ -69,22 +71,22 @@ def seqSpec (cfg : PartCfg) : Bullets → Str → List Xml → M (List Str × Bu
 /-- **C02, consecutive paragraphs** (partial: siblings that are all flat paragraphs). One record
 per source paragraph, appended in document order, texts as prescribed, identities preserved. -/
 theorem C02_paragraph_sequence_partial (cfg : PartCfg) (num : Dict Str (List NumAttr)) (c : Bool) :
-    ∀ (xs : List Xml) (s s' : DC), (∀ x ∈ xs, flatPar x = true) → walkL cfg num c s xs = .ok s' →
+    ∀ (xs : List Xml) (s s' : DC), (∀ x ∈ xs, flatPar x = true) → NoImpl s → walkL cfg num c s xs = .ok s' →
     ∃ pars, leafParsL s'.root = leafParsL s.root ++ pars ∧ pars.map (·.elem) = xs.map Xml.id? ∧
       s'.openPars = s.openPars ∧ s'.ranges = s.ranges ∧
       seqSpec cfg s.bullets (sjoin (s.queued.map (·.text))) xs = .ok (pars.map parText, s'.bullets) := by
   intro xs
   induction xs with
   | nil =>
-    intro s s' _ h
+    intro s s' _ _ h
     simp only [walkL] at h; have := pure_ok h; subst this
     exact ⟨[], by simp, rfl, rfl, rfl, rfl⟩
   | cons x xs ih =>
-    intro s s' hall h
+    intro s s' hall hni h
     simp only [walkL] at h
     obtain ⟨s1, h1, h⟩ := bind_ok h
-    obtain ⟨par, a1, a2, a3, a4, a5, a6⟩ := C02_paragraph cfg num c s s1 x (hall x (by simp)) h1
-    obtain ⟨pars, b1, b2, b3, b4, b5⟩ := ih s1 s' (fun y hy => hall y (by simp [hy])) h
+    obtain ⟨par, a1, a2, a3, a4, a5, a6⟩ := C02_paragraph cfg num c s s1 x (hall x (by simp)) hni h1
+    obtain ⟨pars, b1, b2, b3, b4, b5⟩ := ih s1 s' (fun y hy => hall y (by simp [hy])) (NoImpl_of_openPars a2 hni) h
     refine ⟨par :: pars, by rw [b1, a1]; simp, by simp [a5, b2], b3.trans a2, b4.trans a4, ?_⟩
     simp only [seqSpec, a6, ok_bind]
     rw [a3] at b5
